@@ -447,12 +447,191 @@ func c17(c *core.Ctx) {
 		k.Count("rejection_runs", 1)
 		k.Distinct(fmt.Sprintf("rejrun|%d", run))
 	})
+	// SEVERAL SA objects alive in one process that share everything an implementation might (wrongly) key state by:
+	// the SPI pair, the Message ID, the exchange type - a gateway with two peers behind one NAT, a rekeyed SA next to
+	// its predecessor, or one record used in both roles. Operations on the twins are interleaved; every step is
+	// repeated on a fresh object of the same keys under the same random stream.
+	c.Family("twin-SAs-sharing-identifiers", c.N(9*40, 9*4000), func(k *core.Case) {
+		s := ref.Suites[k.Index%9]
+		rawA := libsa.RandomRaw(k.R, s)
+		rel := k.Index / 9 % 5
+		rawB := libsa.RandomRaw(k.R, s)
+		rawB.Prf = rawA.Prf
+		if rawB.In != nil { // keep the hand-installed form: the relation below edits the key octets
+			rawB.In = nil
+		}
+		cpb := func(b []byte) []byte { return append([]byte{}, b...) }
+		switch rel {
+		case 1: // same key octets, distinct objects
+			rawB = rawA
+		case 2: // same encryption keys, other integrity keys
+			rawB.K.Ei, rawB.K.Er = cpb(rawA.K.Ei), cpb(rawA.K.Er)
+		case 3: // the same keys with the roles swapped (this end is responder on the twin)
+			rawB.K = ref.IKEKeys{D: cpb(rawA.K.D), Ai: cpb(rawA.K.Ar), Ar: cpb(rawA.K.Ai), Ei: cpb(rawA.K.Er), Er: cpb(rawA.K.Ei), Pi: cpb(rawA.K.Pr), Pr: cpb(rawA.K.Pi)}
+		case 4: // same integrity keys, other encryption keys
+			rawB.K.Ai, rawB.K.Ar = cpb(rawA.K.Ai), cpb(rawA.K.Ar)
+		}
+		raws := []libsa.Raw{rawA, rawB}
+		var long [2]*security.IKESAKey
+		for i := range long {
+			var err error
+			if long[i], err = libsa.NewKey(raws[i]); err != nil {
+				k.Violate("setup", "NewKey failed", err.Error(), nil)
+				return
+			}
+		}
+		// two headers only: every datagram of either SA carries one of them
+		hdrs := []*abs.Msg{gen.Header(k.R), gen.Header(k.R)}
+		if k.R.Bool() {
+			hdrs[1].ISPI, hdrs[1].RSPI = hdrs[0].ISPI, hdrs[0].RSPI
+		}
+		type sent struct {
+			wire []byte
+			m    *abs.Msg
+			by   int
+			init bool
+		}
+		var last []sent
+		var hist []string
+		for st := 0; st < 24; st++ {
+			who := k.R.Intn(2)
+			op := k.R.Pick(opPI, opPR, opUG, opUG, opUT, opDC)
+			if len(last) == 0 && op == opUT {
+				op = opPI
+			}
+			seed := k.R.U64()
+			h := hdrs[k.R.Intn(2)]
+			m := gen.Msg(k.R, gen.Opt{Protected: true, MaxPayloads: 2, AllowEmpty: true})
+			m.ISPI, m.RSPI, m.MsgID, m.Exch, m.Flags, m.Major, m.Minor = h.ISPI, h.RSPI, h.MsgID, h.Exch, h.Flags, h.Major, h.Minor
+			recvInit := k.R.Bool()
+			var presented []byte
+			var from sent
+			switch op {
+			case opUG: // genuine datagram from this SA's peer
+				peer, _ := libsa.NewKey(raws[who])
+				g, gerr, gp := libProtect(m, peer, !recvInit)
+				if gerr != nil || gp != nil {
+					k.Violate("protect-error", "fresh-peer-cannot-protect", fmt.Sprint(gerr, gp), M{"msg": msgJSON(m)})
+					return
+				}
+				presented = g
+			case opUT: // a datagram that one of the twins sent or accepted, presented to `who` (either twin)
+				from = last[k.R.Intn(len(last))]
+				presented, recvInit = append([]byte{}, from.wire...), !from.init
+				if k.R.Chance(1, 3) {
+					recvInit = from.init // reflected as well
+				}
+			}
+			e, i := k.R.Intn(3), k.R.Intn(4)
+			nonces := k.R.Bytes(k.R.Range(0, 48))
+			hist = append(hist, fmt.Sprintf("%s@%c", opNames[op], 'A'+who))
+			run := func(key *security.IKESAKey) (r stepResult) {
+				mon.WithRand(core.NewRng(seed), func() {
+					switch op {
+					case opPI, opPR:
+						b, err, p := libProtect(m, key, op == opPI)
+						r.wire, r.err = b, err != nil
+						if p != nil {
+							r.panicS = p.Sig()
+						}
+					case opUG, opUT:
+						d, err, p := libUnprotect(append([]byte{}, presented...), st%2 == 0, key, recvInit)
+						r.msg, r.err = d, err != nil
+						if p != nil {
+							r.panicS = p.Sig()
+						}
+					case opDC:
+						ck := newChild(e, i)
+						var err error
+						p := core.Try(func() { err = ck.GenerateKeyForChildSA(key, nonces) })
+						r.err = err != nil
+						if p != nil {
+							r.panicS = p.Sig()
+						}
+						r.child = [4][]byte{ck.InitiatorToResponderEncryptionKey, ck.InitiatorToResponderIntegrityKey,
+							ck.ResponderToInitiatorEncryptionKey, ck.ResponderToInitiatorIntegrityKey}
+					}
+				})
+				return
+			}
+			k.Eval(1)
+			rl := run(long[who])
+			fresh, _ := libsa.NewKey(raws[who])
+			rf := run(fresh)
+			w := M{"suite": s.Name(), "relation": rel, "keysA": rawA.JSON(), "keysB": rawB.JSON(), "history": histTail(hist), "step": st, "rand_seed": seed}
+			if presented != nil {
+				w["presented"] = core.HexClip(presented, 1024)
+				w["receiver_initiator"] = recvInit
+			}
+			if rl.panicS != "" {
+				k.Violate("panic", "twins: "+rl.panicS, "panic at step "+fmt.Sprint(st), w)
+				return
+			}
+			if d := rl.equal(rf); d != "" {
+				k.Violate("history-dependence", "twin-differs-from-fresh/"+opNames[op], fmt.Sprintf("step %d after [%s]: %s", st, histTail(hist), d), w)
+				return
+			}
+			switch op {
+			case opPI, opPR:
+				if rl.err {
+					k.Violate("protect-error", "twin-protect-error", "protect failed", w)
+					return
+				}
+				peer, _ := libsa.NewKey(raws[who])
+				d, derr, dp := libUnprotect(rl.wire, false, peer, op != opPI)
+				if derr != nil || dp != nil || !abs.Equal(m, d) {
+					k.Violate("history-dependence", "fresh-peer-rejects-twin-output", fmt.Sprint(derr, dp), w)
+					return
+				}
+				last = append(last, sent{rl.wire, m, who, op == opPI})
+			case opUG:
+				if rl.err || !abs.Equal(m, rl.msg) {
+					k.Violate("history-dependence", "genuine-rejected-by-twin", "genuine message from a fresh peer not accepted / differs", w)
+					return
+				}
+				last = append(last, sent{presented, m, who, !recvInit})
+			case opUT:
+				// accepted only when the receiving direction's integrity key is the one the datagram was made under
+				mk := raws[from.by].Dir(from.init)
+				vk := raws[who].Dir(!recvInit)
+				same := bytes.Equal(mk.Ka, vk.Ka) && bytes.Equal(mk.Ke, vk.Ke)
+				if !rl.err && !bytes.Equal(mk.Ka, vk.Ka) {
+					k.Violate("accepted", "twin-accepts-the-other-twins-datagram", "a datagram made under another integrity key was accepted", w)
+					return
+				}
+				if same && (rl.err || !abs.Equal(from.m, rl.msg)) {
+					k.Violate("history-dependence", "twin-rejects-datagram-of-equal-keys", "datagram made under equal keys refused / differs", w)
+					return
+				}
+				k.Count(fmt.Sprintf("twin_cross_presentations_same_keys_%v", same), 1)
+			case opDC:
+				if rl.err {
+					k.Violate("derive-error", "twin-child-error", "child derivation failed", w)
+					return
+				}
+				ck := newChild(e, i)
+				ck.InitiatorToResponderEncryptionKey, ck.InitiatorToResponderIntegrityKey = rl.child[0], rl.child[1]
+				ck.ResponderToInitiatorEncryptionKey, ck.ResponderToInitiatorIntegrityKey = rl.child[2], rl.child[3]
+				if bad := childCmp(ck, raws[who].Prf, raws[who].K.D, nonces, e, i); bad != "" {
+					k.Violate("mismatch", "twin-child-mismatch", bad, w)
+					return
+				}
+			}
+			if len(last) > 6 {
+				last = last[1:]
+			}
+		}
+		k.Count(fmt.Sprintf("twin_sa_histories_relation_%d", rel), 1)
+		k.Distinct(fmt.Sprintf("twin|%d|%s", rel, s.Name()))
+	})
 	var req []string
 	for a := 0; a < nOps; a++ {
 		for b := 0; b < nOps; b++ {
 			req = append(req, "bigram_"+opNames[a]+">"+opNames[b])
 		}
 	}
-	req = append(req, "forgeries_keeping_the_last_accepted_checksum", "long_lived_sa_histories", "rejection_runs")
+	req = append(req, "forgeries_keeping_the_last_accepted_checksum", "long_lived_sa_histories", "rejection_runs",
+		"twin_sa_histories_relation_0", "twin_sa_histories_relation_1", "twin_sa_histories_relation_2", "twin_sa_histories_relation_3", "twin_sa_histories_relation_4",
+		"twin_cross_presentations_same_keys_true", "twin_cross_presentations_same_keys_false")
 	c.Require(req...)
 }
